@@ -37,6 +37,11 @@ def jobs(tier, seed):
     return out
 
 
+def _with_band(r):
+    from sx import symxr
+    return symxr.DataArray(r.data, dims=r.dims, coords={'y': r.coords['y'].data, 'x': r.coords['x'].data, 'band': symnp.asarray(7)}, attrs=dict(r.attrs), name=r.name)
+
+
 def body(ctx, job):
     h, w = job['shape']
     dt = job['dtype']
@@ -68,7 +73,7 @@ def body(ctx, job):
         call_values = list(entries)
 
     if job['fn'] == 'trim':
-        src = raster(data, ys=ys, xs=xs, attrs=attrs, name='src')
+        src = _with_band(raster(data, ys=ys, xs=xs, attrs=attrs, name='src'))
         if mode == 'default':
             res = ctx.call('zonal:trim', src)
         else:
@@ -83,7 +88,7 @@ def body(ctx, job):
     else:
         zones = raster(data, ys=ys, xs=xs, attrs={'zone': 1}, name='zones')
         vdata = ctx.array('v', (h, w), 'float64', nan=True)
-        values = raster(vdata, ys=ys, xs=xs, attrs=attrs, name='values')
+        values = _with_band(raster(vdata, ys=ys, xs=xs, attrs=attrs, name='values'))
         res = ctx.call('zonal:crop', zones, values, call_values)
 
         def kept(v):
@@ -134,3 +139,7 @@ def body(ctx, job):
             if t0 + i < h and l0 + j < w:
                 ctx.check('cells-intact', same(out[i, j], srcv[t0 + i, l0 + j]))
     ctx.check('attrs-dims', And(res.attrs == ref_src.attrs, tuple(res.dims) == tuple(ref_src.dims)))
+    # a scalar (non-dimension) coordinate of the original belongs to the window as well
+    band = res.coords['band'].values.flat_values() if 'band' in res.coords else None
+    ctx.check('scalar-coordinate-kept', sorted(res.coords) == sorted(ref_src.coords) and band is not None and [float(v) for v in band] == [7.0],
+              info={'coords': sorted(res.coords), 'want': sorted(ref_src.coords)})
